@@ -4,6 +4,7 @@ import (
 	"fmt"
 	"go/ast"
 	"go/token"
+	"sort"
 	"strings"
 )
 
@@ -357,17 +358,23 @@ def SyncItem.key (i : SyncItem) : SyncEv × SyncCtx × List Nat := (i.ev, i.ctx,
 		fmt.Fprintf(&sb, "/-- %s.%s (%s) -/\ndef %s : List SyncItem :=\n  %s\n\n", f.recv, f.name, f.file, f.lean, r.syncItems(fd))
 	}
 	// every method of *Txn: its guard prologue and sync events
-	file := r.Files["txn.go"]
+	file := r.File("txn.go")
 	if file == nil {
 		return "", fmt.Errorf("txn.go not found")
 	}
 	sb.WriteString("/-- every method of `Txn` (txn.go) with its events: (name as bytes, name, events) -/\ndef sync_txnMethods : List (List Nat × String × List SyncItem) :=\n  [")
 	first := true
+	// (in the order of their names: where in which file a method stands is no fact)
+	var txnMethods []*ast.FuncDecl
 	for _, d := range file.Decls {
 		fd, ok := d.(*ast.FuncDecl)
 		if !ok || fd.Recv == nil || fd.Body == nil || len(fd.Recv.List) != 1 || recvName(fd.Recv.List[0].Type) != "Txn" {
 			continue
 		}
+		txnMethods = append(txnMethods, fd)
+	}
+	sort.Slice(txnMethods, func(i, j int) bool { return txnMethods[i].Name.Name < txnMethods[j].Name.Name })
+	for _, fd := range txnMethods {
 		if !first {
 			sb.WriteString(",\n   ")
 		}
